@@ -468,6 +468,31 @@ def main(root, argv):
     if tier not in ("quick", "thorough"):
         tier = "quick"
     thorough = tier == "thorough"
+    if replay:
+        # a replay file says which check it belongs to (a companion check has its own binary)
+        try:
+            rp = os.path.join(root, replay) if not os.path.isabs(replay) else replay
+            for line in open(rp, errors="replace"):
+                if line.startswith("prop "):
+                    pp = line.split()[1]
+                    if pp in CHECKS and pp != prop:
+                        prop = pp; spec = CHECKS[pp]
+                    break
+        except OSError:
+            pass
+    companion_rc, companion_ev = 0, None
+    if spec.get("companion") and not replay:
+        # the property has a second clause decided by another binary: it runs first, on a fixed share of the budget
+        cprop = spec["companion"]
+        cbud = (budget if budget is not None else (spec["thorough_s"] if thorough else spec["quick_s"])) * 0.2
+        companion_rc = main(root, [cprop, "--tier", tier, "--budget-s", "%.1f" % max(5.0, cbud), "--workers", str(nworkers)])
+        evp = os.path.join(root, "evidence", cprop + ".json")
+        if os.path.exists(evp):
+            try: companion_ev = json.load(open(evp))
+            except ValueError: companion_ev = None
+            os.unlink(evp)
+        if companion_rc == 2:
+            return 2
     seed = int(os.environ.get("VERIF_SEED", "1") or 1)
     t0 = time.time()
     if not build(root, ["build/" + spec["binary"]]):
@@ -488,6 +513,8 @@ def main(root, argv):
             return 1
         if budget is None:
             budget = spec["thorough_s"] if thorough else spec["quick_s"]
+        if spec.get("companion"):
+            budget = budget * 0.8
         agg = run_batch(root, spec, seed, budget, thorough, scratch, nworkers)
         rc = 0
         violations, knowns, harness = [], [], []
@@ -516,6 +543,24 @@ def main(root, argv):
                 log("HARNESS ERROR:", h)
             rc = 2
         write_evidence(root, prop, spec, tier, seed, agg, violations, knowns, time.time() - t0, budget, nworkers)
+        if companion_ev is not None:
+            # fold the companion check's coverage into this property's evidence file
+            evp = os.path.join(root, "evidence", prop + ".json")
+            ev = json.load(open(evp))
+            cc = companion_ev.get("coverage", {})
+            cov = ev["coverage"]
+            for k, v in cc.get("rare_branch_probes", {}).items(): cov["rare_branch_probes"][spec["companion"] + ":" + k] = v
+            for k, v in cc.get("other_counters", {}).items(): cov["other_counters"][spec["companion"] + ":" + k] = v
+            for k, v in cc.get("faults_fired_by_kind", {}).items(): cov["faults_fired_by_kind"][spec["companion"] + ":" + k] = v
+            cov["other_counters"][spec["companion"] + ":evaluations"] = cc.get("evaluations", 0)
+            cov["other_counters"][spec["companion"] + ":distinct_traces"] = cc.get("distinct_traces_all", 0)
+            cov["components"]["real"] = cov["components"]["real"] + cc.get("components", {}).get("real", [])
+            cov["components"]["stub"] = cov["components"]["stub"] + cc.get("components", {}).get("stub", [])
+            cov["rule"] = cov["rule"] + " || second clause (" + spec["companion"] + ", run first on 20% of the budget): " + cc.get("rule", "")
+            cov["probes_stuck_at_zero"] = cov.get("probes_stuck_at_zero", []) + [spec["companion"] + ":" + x for x in cc.get("probes_stuck_at_zero", [])]
+            json.dump(ev, open(evp, "w"), indent=1)
+        if companion_rc == 1:
+            rc = 1
         n = agg["runs"]
         print("%s %s: %d simulated runs, %d distinct traces (%d non-trivial), %d violations, %d known findings, %.1fs"
               % (prop, tier, n, len(agg["hashes_all"]), len(agg["hashes_nt"]), len(violations), len(knowns), time.time() - t0))
